@@ -37,7 +37,11 @@ Inductive instr :=
      that fails *)
 | IFail
   (* any other kind of instruction that succeeds *)
-| ISkip.
+| ISkip
+  (* update / read during which the manager's store.GetRegistryValue fails with an error other
+     than "not found" (Model.PutF _ _ _ FLookup / Model.GetF) *)
+| IUpdateF (k : N) (e : entry) (valid : bool)
+| IReadF (k : N) (ver : N).
 
 Record program := {
   hbh : N;        (* HostBlockHeight of the price table the renter named *)
@@ -77,6 +81,15 @@ Definition istep (fwd : bool) (exp c : N) (s : state) (rem : N) (i : instr)
                 true, [(Get k, o)])
            | _ => (s', (rem - c)%N, RError None, false, [(Get k, o)])
            end
+  | IUpdateF k e valid =>
+      if (rem <? c)%N then (s, rem, RError None, false, [])
+      else let '(s', o) := step s (PutF k e valid FLookup) in
+           (s', (rem - c)%N, RError None, false, [(PutF k e valid FLookup, o)])
+  | IReadF k ver =>
+      if negb ((ver =? 1) || (ver =? 2))%N then (s, rem, RError None, false, [])
+      else if (rem <? c)%N then (s, rem, RError None, false, [])
+      else let '(s', o) := step s (GetF k) in
+           (s', (rem - c)%N, RError None, false, [(GetF k, o)])
   | IUpdate k e valid tie =>
       if (rem <? c)%N then (s, rem, RError None, false, [])
       else let '(s', o) := step s (Put k e exp valid tie) in
